@@ -3,9 +3,7 @@
 import importlib, json, os, sys
 ROOT = os.path.dirname(os.path.dirname(os.path.abspath(__file__)))
 sys.path.insert(0, ROOT)
-NA = {
- "C18": "substance of the property is produced by the C routine multitap behind ctypes (float convergence loops, >=8x8 eigenproblem): outside solver-based checking of the Python code; wrapper-only checking would not decide any clause (DESIGN.md C18)",
-}
+NA = {}
 props = [json.loads(l) for l in open(os.path.join(ROOT, "properties.jsonl"))]
 checks, na = [], []
 for p in props:
